@@ -80,7 +80,8 @@ try:
         fired = {}
         props = [f"C{i:02d}" for i in range(1, 21)]
         for p_ in props:
-            rc, out = run(["/verif/check", p_, "--repo", wt], cwd="/verif")
+            root = os.path.dirname(os.path.dirname(os.path.abspath(__file__)))  # the checkout this script belongs to
+            rc, out = run([os.path.join(root, "check"), p_, "--repo", wt], cwd=root)
             rules = sorted({l.split("rule ")[1].split(":")[0] for l in out.splitlines() if l.strip().startswith("rule ")})
             if rc != 0:
                 fired[p_] = {"rc": rc, "rules": rules, "errors": [l[:160] for l in out.splitlines() if "ANALYSIS-ERROR" in l][:3]}
